@@ -36,7 +36,7 @@ func loadProgram() (*sym.Program, error) {
 	}
 	hd := os.Getenv("VERIF_HARNESS")
 	if hd == "" {
-		hd = "/verif/harness/larking"
+		hd = verifDir + "/harness/larking"
 	}
 	return sym.Load(repo, "larking", "larking.io/larking", hd)
 }
@@ -49,7 +49,7 @@ func loadProgramOverlayOnly() (*sym.Program, error) {
 	}
 	hd := os.Getenv("VERIF_HARNESS")
 	if hd == "" {
-		hd = "/verif/harness/larking"
+		hd = verifDir + "/harness/larking"
 	}
 	return sym.OverlayOnly(repo, "larking", hd)
 }
